@@ -284,7 +284,7 @@ class SecretKey:
 class World:
     """one setup (params + master key) on one back end, with a deterministic random source"""
 
-    def __init__(self, cfg, l, signatures, seed):
+    def __init__(self, cfg, l, signatures, seed, rescale=True):
         self.cfg, self.l, self.sig, self.seed = cfg, l, signatures, seed
         self.L = ffi.lib(cfg)
         self.N = Native(self.L)
@@ -294,6 +294,41 @@ class World:
         self.msk = self.L.buf(self.N.sz["wk_masterkey"])
         self.L.call("embedded_pairing_wkdibe_setup", self.params.buf, self.msk, l, 1 if signatures else 0, self.rng.cb)
         self._al_cache = {}
+        if rescale:
+            self._rescale()
+
+    def _rescale(self):
+        """Re-expresses every group element of the public parameters and the master key in another Jacobian representation
+        (X c^2, Y c^3, Z c) of the SAME point.  The scheme's results may not depend on the representation of its inputs (the library's
+        in-memory group type is projective and nothing promises that setup's output is normalised); parameters straight from unmarshal
+        (z = 1) are what C15 / C19 / C20 work with."""
+        N, L = self.N, self.L
+        cs = alpha.fillers(self.seed, "wk-rescale", 8, ref.q)
+
+        def scale(raw, g, k):
+            F = ref.FIELDS[g]
+            c = cs[k % len(cs)] if g == 1 else (cs[k % len(cs)], cs[(k + 3) % len(cs)])
+            x, y, z = L.unproj_raw(raw, g)
+            if z == F.zero:
+                return raw
+            c2 = F.mul(c, c)
+            return L.coord(F.mul(x, c2), g) + L.coord(F.mul(y, F.mul(c2, c)), g) + L.coord(F.mul(z, c), g)
+
+        k = 0
+        for name, g in (("g", 2), ("g1", 2), ("g2", 1), ("g3", 1), ("hsig", 1)):
+            o = N.off["wk_params." + name]
+            size = N.sz["g%d" % g]
+            new = scale(self.params.buf.raw[o:o + size], g, k)
+            ctypes.memmove(ctypes.byref(self.params.buf, o), new, len(new))
+            k += 1
+        s = N.sz["g1"]
+        for i in range(self.l):
+            new = scale(self.params.h.raw[s * i:s * i + s], 1, k)
+            ctypes.memmove(ctypes.byref(self.params.h, s * i), new, len(new))
+            k += 1
+        o = N.off["wk_masterkey.g2alpha"]
+        new = scale(self.msk.raw[o:o + s], 1, k)
+        ctypes.memmove(ctypes.byref(self.msk, o), new, len(new))
 
     def al(self, Ls):
         return self.N.attrlist(Ls, self.vals)
